@@ -205,6 +205,10 @@ func (s *Sched) unlocked(m any) {
 	s.mu.Unlock()
 }
 
+// Progress counts scheduling steps of all runs of the process; the wall-clock watchdog uses it to tell a task that
+// spins without ever yielding from a run that is merely slow.
+var Progress atomic.Int64
+
 var identity = []int{0, 1, 2, 3, 4, 5, 6, 7, 8, 9, 10, 11, 12, 13, 14, 15}
 
 func (s *Sched) selectOrder(site string, n int) []int {
@@ -397,6 +401,7 @@ func (s *Sched) release(p *parked) {
 	s.Points[p.point]++
 	s.own[p.t.name]++
 	s.Steps++
+	Progress.Add(1)
 	s.last = p.t.name
 	close(p.ch)
 }
